@@ -223,6 +223,70 @@ pub fn emit(dir: &Path) {
       db.rels.insert("nxt".into(), vec![vec![i(2), i(1)], vec![i(1), i(0)]]);
       write(dir, "KF-12.json", "C10", "KF-12", Program { rels, rules, macros: vec![] }, Kind::Ascent, vec![], db);
    }
+   // KF-13: binary trrel_uf, element first mentioned inside the looping stratum
+   {
+      let t = Ty::U32;
+      let mut rr = rel("rr", vec![t, t], false);
+      rr.ds = Some(Ds::TrRelUf);
+      let rels = vec![rr, rel("edge", vec![t, t], true), rel("nxt", vec![t, t], true), rel("out", vec![t, t], false)];
+      let rules = vec![
+         Rule { heads: vec![hd("rr", vec![v("x"), v("y")])], body: vec![cl("edge", vec![av("x"), av("y")])] },
+         Rule { heads: vec![hd("rr", vec![v("y"), v("z")])], body: vec![cl("rr", vec![av("y"), av("x")]), cl("nxt", vec![av("y"), av("z")])] },
+         Rule { heads: vec![hd("out", vec![v("x"), v("y")])], body: vec![cl("rr", vec![av("x"), av("y")])] },
+      ];
+      let mut db = Db::default();
+      db.rels.insert("edge".into(), vec![vec![i(0), i(0)]]);
+      db.rels.insert("nxt".into(), vec![vec![i(0), i(1)], vec![i(1), i(0)]]);
+      write(dir, "KF-13.json", "C12", "KF-13", Program { rels, rules, macros: vec![] }, Kind::Ascent, vec![], db);
+   }
+   // KF-14a: ternary trrel_uf read without binding the key
+   {
+      let t = Ty::U32;
+      let mut rr = rel("rr", vec![t, t, t], false);
+      rr.ds = Some(Ds::TrRelUf);
+      let rels = vec![rr, rel("edge", vec![t, t, t], true), rel("probe", vec![t], true), rel("out", vec![t, t, t], false)];
+      let rules = vec![
+         Rule { heads: vec![hd("rr", vec![v("k"), v("x"), v("y")])], body: vec![cl("edge", vec![av("k"), av("x"), av("y")])] },
+         Rule {
+            heads: vec![hd("out", vec![v("k"), v("x"), v("y")])],
+            body: vec![cl("probe", vec![av("y")]), cl("rr", vec![av("k"), av("x"), av("y")])],
+         },
+      ];
+      let mut db = Db::default();
+      db.rels.insert("edge".into(), vec![vec![i(0), i(0), i(1)]]);
+      db.rels.insert("probe".into(), vec![vec![i(0)]]);
+      write(dir, "KF-14a.json", "C12", "KF-14a", Program { rels, rules, macros: vec![] }, Kind::Ascent, vec![], db);
+   }
+   // KF-14b: ternary trrel_uf, a key receives facts, pauses, and resumes inside a looping stratum
+   {
+      let t = Ty::U32;
+      let mut rr = rel("rr", vec![t, t, t], false);
+      rr.ds = Some(Ds::TrRelUf);
+      let rels = vec![
+         rr,
+         rel("edge", vec![t, t, t], true),
+         rel("stage", vec![Ty::I32, t, t, t], true),
+         rel("tick", vec![Ty::I32], false),
+         rel("out", vec![t, t, t], false),
+      ];
+      let rules = vec![
+         Rule { heads: vec![hd("rr", vec![v("k"), v("x"), v("y")])], body: vec![cl("edge", vec![av("k"), av("x"), av("y")])] },
+         Rule { heads: vec![hd("tick", vec![Expr::Int(0, Ty::I32)])], body: vec![] },
+         Rule {
+            heads: vec![hd("tick", vec![Expr::SatAdd(Box::new(v("i")), Box::new(Expr::Int(1, Ty::I32)), 6)])],
+            body: vec![cl("tick", vec![av("i")]), cl("rr", vec![Arg::Wild, Arg::Wild, Arg::Wild])],
+         },
+         Rule {
+            heads: vec![hd("rr", vec![v("k"), v("x"), v("y")])],
+            body: vec![cl("tick", vec![av("i")]), cl("stage", vec![av("i"), av("k"), av("x"), av("y")])],
+         },
+         Rule { heads: vec![hd("out", vec![v("k"), v("x"), v("y")])], body: vec![cl("rr", vec![av("k"), av("x"), av("y")])] },
+      ];
+      let mut db = Db::default();
+      db.rels.insert("edge".into(), vec![vec![i(0), i(1), i(2)]]);
+      db.rels.insert("stage".into(), vec![vec![i(3), i(0), i(5), i(6)]]);
+      write(dir, "KF-14b.json", "C12", "KF-14b", Program { rels, rules, macros: vec![] }, Kind::Ascent, vec![], db);
+   }
 }
 
 fn write_hist(dir: &Path, file: &str, prop: &str, base: &str, prog: Program, kind: Kind, input: Db, ops: &str) {
